@@ -23,6 +23,27 @@ import (
 // error-free parse, every one of the n sentinels is in the list, in order, and the print clause holds.
 var unitCounts = []int{1, 2, 3, 4, 5, 7, 8, 9, 10, 11, 12, 15, 16, 17, 20, 31, 32, 33, 50, 64, 65, 100, 101}
 
+var witnesses = []string{";", "{ }", "$w = 1 ;", "echo 2 ;", "; ;", "if ( $c ) { }", "w ( ) ;", "{ ; }", "$w = 1 ; ; echo 2 ;", "while ( 0 ) ;", "; { } ;"}
+
+func witnessText(i int) string { return witnesses[(i*7+3)%len(witnesses)] }
+
+var witnessCache = map[string][]ast.Vertex{}
+
+// witnessStmts parses the witness statements of unit i alone.
+func witnessStmts(v px.Ver, i int) []ast.Vertex {
+	key := v.String() + witnessText(i)
+	if w, ok := witnessCache[key]; ok {
+		return w
+	}
+	r := px.Parse([]byte("<?php "+witnessText(i)+" "), v, true)
+	var out []ast.Vertex
+	if r.Root != nil && len(r.Errs) == 0 {
+		out = r.Root.(*ast.Root).Stmts
+	}
+	witnessCache[key] = out
+	return out
+}
+
 func sentinelNumber(n ast.Vertex) int {
 	if !isSentinel(n) {
 		return -1
@@ -80,9 +101,12 @@ func checkMany(src []byte, v px.Ver, list, boundary int, ms []string) insertionR
 		res.skipped = true
 		return res
 	}
+	// after each sentinel stand one to three witness statements (chosen by the unit's number): well-formed
+	// statements that precede the next malformed one, read outside recovery mode (the sentinel call before
+	// them shifted more than three tokens) — they must be in the list exactly as they parse alone
 	var ins strings.Builder
 	for i, m := range ms {
-		fmt.Fprintf(&ins, " %s $r1 = 1; $r2 = 2; $r3 = 3; sentinel_9f ( %d ) ; ", m, i+1)
+		fmt.Fprintf(&ins, " %s $r1 = 1; $r2 = 2; $r3 = 3; sentinel_9f ( %d ) ; %s ", m, i+1, witnessText(i))
 	}
 	edited := append(append(append([]byte{}, src[:at]...), ins.String()...), src[at:]...)
 	res.edited = edited
@@ -117,8 +141,18 @@ func checkMany(src []byte, v px.Ver, list, boundary int, ms []string) insertionR
 		}
 	}
 	next := 1
-	for _, s := range got[k:] {
+	for p, s := range got[k:] {
 		if n := sentinelNumber(s); n == next {
+			want := witnessStmts(v, next-1)
+			rest := got[k+p+1:]
+			if len(rest) < len(want) {
+				return fail("witness-lost", "[%s] the %d well-formed statements %q behind sentinel_9f(%d) precede the next malformed statement; the list ends after %d more statements\nedited: %q", v, len(want), witnessText(next-1), next, len(rest), trunc(edited, 1500))
+			}
+			for j, w := range want {
+				if d := astx.Equal(rest[j], w, 0); d != "" {
+					return fail("witness-changed", "[%s] well-formed statement #%d of %q behind sentinel_9f(%d) (it precedes the next malformed statement and follows a statement that parsed normally) is not in the list as it parses alone: %s\nedited: %q", v, j, witnessText(next-1), next, d, trunc(edited, 1500))
+				}
+			}
 			next++
 		}
 	}
